@@ -229,9 +229,9 @@ def call_slots(db, rep):
     slots = {}
     nstat = 0
     for f in db.fns.values():
-        if f.rec["kind"] not in ("static", "constant", "const", "associated constant") and not f.rec["kind"].startswith(("static", "const")):
+        if f.kind not in ("static", "constant", "const", "associated constant") and not f.kind.startswith(("static", "const")):
             continue
-        if not f.locals or not f.locals[0].endswith("internal_methods::InternalObjectMethods"):
+        if not f.mentions("InternalObjectMethods") or not f.locals or not f.locals[0].endswith("internal_methods::InternalObjectMethods"):
             continue
         nstat += 1
         for b in range(len(f.blocks)):
@@ -419,7 +419,7 @@ def r3(db, rep):
     # writers of pending_exception
     writers = {}
     for f in db.fns.values():
-        if not f.id.startswith("boa_engine::"):
+        if not f.id.startswith("boa_engine::") or not f.mentions("pending_exception"):
             continue
         for b, s in assigns_to_field(f, "Vm.pending_exception"):
             writers.setdefault(cname(f.id), f)
